@@ -247,7 +247,7 @@ class Container:
         raise Unsupported("container kind " + self.kind)
 
     def read(self, key):
-        key = tuple(sp.sympify(k) for k in key)
+        key = tuple(sp.expand(sp.sympify(k)) for k in key)
         if self.kind == "struct":
             return self.default(key)
         for k2, v in reversed(self.store):
@@ -260,7 +260,7 @@ class Container:
         return self.default(key)
 
     def write(self, key, value):
-        key = tuple(sp.sympify(k) for k in key)
+        key = tuple(sp.expand(sp.sympify(k)) for k in key)
         self.store.append((key, value))
 
 
@@ -288,6 +288,7 @@ class LoopSummary:
         self.locals = {}
         self.inner = []
         self.post_gen = {}
+        self.carried = {}
 
     def writes_to(self, name):
         return [e for e in self.effects if e.target == name]
@@ -379,6 +380,10 @@ class Interp:
                     return Container(name, "scal")
                 if el.get("c") == "record" and el.get("n") in self.F.records:
                     return Container(name, "struct", struct_fields=[f["name"] for f in self.F.records[el["n"]]["fields"]])
+                if el.get("c") == "eigen":
+                    c0 = Container(name, "nest")
+                    c0.elem_ty = el
+                    return c0
                 return Container(name, "scal")
             n = ty.get("n")
             if n in self.F.records:
@@ -507,6 +512,9 @@ class Interp:
         return self.evl(e["e"], env)
 
     def e_defaultarg(self, e, env):
+        return self.evl(e["e"], env)
+
+    def e_defaultinit(self, e, env):
         return self.evl(e["e"], env)
 
     def e_cond(self, e, env):
@@ -1124,6 +1132,13 @@ class Interp:
             objr = self.evl(e["obj"], env)
             v = self.load(objr) if isinstance(objr, Ref) and objr.kind in ("var", "field") else objr
             if isinstance(v, Container):
+                if (op == "[]" or nm == "at") and v.kind == "nest":
+                    i = sp.expand(self.ev(args[0], env))
+                    key = "%s[%s]" % (v.name, sp.sstr(i))
+                    if key not in v.sub:
+                        v.sub[key] = self.make_value(key, v.elem_ty)
+                        v.sub[key].nest_index = i
+                    return v.sub[key]
                 if op == "[]" or nm == "at":
                     i = self.ev(args[0], env)
                     if v.kind == "struct":
@@ -1503,6 +1518,28 @@ class Interp:
             if cont.store:
                 cont.history.append((cont.gen, list(cont.store)))
                 cont.bump()
+        # loop-carried scalars / vectors: inside the body they denote "value at iteration start"
+        declared_inside = {n["id"] for n in walk(s["body"]) if n.get("k") == "decl"}
+        for n in walk(s["body"]):
+            tgt = None
+            if n.get("k") == "assign":
+                tgt = n["l"]
+            elif n.get("k") == "un" and n["op"] in ("++", "--"):
+                tgt = n["e"]
+            elif n.get("k") == "call" and callee(n).get("op") in ("=", "+=", "-=", "*=", "/=") and "obj" in n:
+                tgt = n["obj"]
+            if isinstance(tgt, dict) and tgt.get("k") == "var" and tgt["id"] in env2 and tgt["id"] not in declared_inside and tgt["id"] != init["id"]:
+                cur = env2[tgt["id"]]
+                if tgt["name"] in summ.carried:
+                    continue
+                if isinstance(cur, sp.Basic) and not isinstance(cur, sp.logic.boolalg.Boolean):
+                    symc = S("$" + tgt["name"], real=True)
+                    summ.carried[tgt["name"]] = (symc, cur)
+                    env2[tgt["id"]] = symc
+                elif isinstance(cur, Vec):
+                    symc = Vec.atom(("$" + tgt["name"],))
+                    summ.carried[tgt["name"]] = (symc, cur)
+                    env2[tgt["id"]] = symc
         self.loop_stack.append(frame)
         saved_guards = list(self.guards)
         try:
